@@ -3,12 +3,14 @@ import DispensoVerif.Proofs.SchedReach
 
 /-!
 C47, second theorem: the only step that turns the `fq` (ForceQueuingTag) flag of a frame from true
-to false is `inline0` acting on the top frame of its thread.
+to false is `inline0` acting on the top frame of its thread, in a pool without threads or being
+resized (a frame that still carries the tag is not marked `zeroPath`: `ZpOK`).
 -/
 namespace Dispenso.Sched
 
 theorem fq_cleared_shape {s s' : St} {t : Nat} {e : Ev} {f0 : Frame} {rest : List Frame}
-    (hbot : AllStk (fun l => botKind l = .base) s.thr) (hs : norm (s.thr t) = f0 :: rest)
+    (hbot : AllStk (fun l => botKind l = .base) s.thr) (hzp : AllStk ZpOK s.thr)
+    (hs : norm (s.thr t) = f0 :: rest)
     (hsh : Shape s t f0 rest e s') (t' k : Nat) (f f' : Frame)
     (h1 : frameAt (norm (s.thr t')) k = some f) (h2 : frameAt (norm (s'.thr t')) k = some f')
     (hq : f.fq = true) (hq' : f'.fq = false) :
@@ -42,7 +44,14 @@ theorem fq_cleared_shape {s s' : St} {t : Nat} {e : Ev} {f0 : Frame} {rest : Lis
     · exact absurd heq hne
     · rcases hfq with hfq | ⟨he, hn⟩
       · rw [hfq, hq] at hq'; cases hq'
-      · exact ⟨he, rfl, by simp [hk1], hn⟩
+      · -- the frame still carries the tag, so it is not marked `zeroPath`
+        have hz : f.zeroPath = true → f.fq = false := fun hz =>
+          ((hs ▸ hzp t') f List.mem_cons_self hz).1
+        refine ⟨he, rfl, by simp [hk1], ?_⟩
+        rcases hn with hn | hn | hn
+        · exact Or.inl hn
+        · exact Or.inr hn
+        · rw [hz hn] at hq; cases hq
   | begin F f0' id he h hF hp hg hset hfq =>
     rw [h, upd_same, norm_cons, frameAt_cons_lt _ (by simpa using hk)] at h2
     rcases frameAt_top h1 h2 with heq | ⟨_, rfl, rfl⟩
